@@ -68,6 +68,10 @@ C['C15'] = dict(level=MC, engine='E2', design='§2 C15',
    technique='symbolic execution (symx, z3 reals) of the unmodified CalculateInitialSteadyState followed by one real SolveStep; per-path SMT post-condition',
    text='Stable, drifting, oscillating, damped, explosive, decorated and (thorough) coupled two-stock blocks are initialised by the real steady-state search with all k=0 values and the exogenous input symbolic in [-2000,2000] (both signs), search horizons 2-3(4), tolerances 1e-4 and 1e-2; every feasible path is explored; on acceptance one further real SolveStep(1) is executed and z3 shows every non-excluded variable moves by no more than the documented tolerance rule amplified by the block one-step gain; otherwise the path ended in NoEquilibriumError/ValueError; the initialised solver (equations, parser lists, exogenous series, horizon) is unchanged.',
    note='TimeSeriesHolder.GenerateCSVtext stubbed to "" in E2 runs (log rendering). Default search horizon 200 is outside the bound.')
+C['C17'] = dict(level=MC, engine='E2', design='§2 C17',
+   technique='symbolic execution (symx) of the target solve after each enumerated history and history-free in the same path; z3 equality of the result terms under the path condition',
+   text='All sequences of up to 3 distinct operations from {build+solve another model, solve another solver, register logs, clean logs, trace a step, re-solve, re-parse after another block} are executed before the target solve, whose exogenous and start values are symbolic; on every path the history-free solve is executed too and z3 shows every series value identical, the reported variable set exactly the block`s; FinalEquations of three zoo topologies are textually equal at six object-ID offsets.',
+   note='Histories bounded to length 3 over the listed operations; values symbolic. Log files go to a scratch directory that is removed.')
 PENDING = {}
 ALL = ['C%02d' % i for i in range(1, 21)]
 checks = []
